@@ -111,6 +111,9 @@ class Ctx:
             self.check_floors()
         except AnalysisError as e:
             floor_error = e
+        helpers = sorted(self.model.transparent()) if getattr(self, "model", None) is not None else []
+        if helpers:
+            self.note("functions absent from sa/anchors.txt, analysed in place at their call sites: " + ", ".join(helpers))
         known = Known()
         out_dir = os.environ.get("YARL_VERIF_OUT") or os.path.join(VERIF, "evidence")
         vdir = os.path.join(out_dir, "violations")
